@@ -72,7 +72,7 @@ def structure_invariants(out, sub, sa, tag):
 def run(case):
     out = Outcome()
     sub = "history"
-    f = drive.vector_function([drive.driver_function(case["dim"], case["fseed"])])
+    f = drive.vector_function([drive.fit_to_box(drive.driver_function(case["dim"], case["fseed"]), case["a"], case["b"])])
     sa, op = drive.build_dw(case, f)
     st_ = dict(before=None, strict=0, ties=0, allsel=0, rot=0, steps=0, raised=0, lmax0=None)
 
